@@ -519,7 +519,18 @@ func main() {
 			l := []int{4095, 4096, 4097, 5000, 8192, 70000}[rng.Intn(6)]
 			fill := bytes.Repeat([]byte{'c'}, l)
 			var ins []byte
-			switch rng.Intn(4) {
+			switch rng.Intn(6) {
+			case 4:
+				// identifiers with letters outside ASCII, among them letters whose encoding contains the byte 0x80
+				ins = []byte([]string{"\nimport π \"u/pi\"\n", "\nimport (À \"a/x\"; 一 \"b/y\")\n", "\nimport Āb \"c/z\"\n", "\nimport _π \"d\"\n"}[rng.Intn(4)])
+			case 5:
+				ins = nil
+				for _, nm := range []string{"π", "À", "一x", "Ā"} {
+					if i := bytes.Index(base, []byte("package p")); i >= 0 && rng.Intn(2) == 0 {
+						base = append(append(append([]byte{}, base[:i]...), []byte("package "+nm)...), base[i+len("package p"):]...)
+						break
+					}
+				}
 			case 0:
 				ins = append(append([]byte("//"), fill...), '\n')
 			case 1:
@@ -550,7 +561,7 @@ func main() {
 			j.check(in, nil, false)
 			res.Eval(true)
 			if i < 2 {
-				res.Sample(map[string]interface{}{"inflated_file_len": len(in), "head": string(in[:60])}, 14)
+				res.Sample(map[string]interface{}{"inflated_file_len": len(in), "head": string(in[:min(60, len(in))])}, 14)
 			}
 		})
 	case "one":
